@@ -206,6 +206,7 @@ var C11Forms = []C11Form{
 	{Name: "stmt", Kind: 's', Text: "§", Basic: true},
 	// type holes
 	{Name: "var-type", Kind: 't', Text: "var t: §;", Basic: true},
+	{Name: "let-type", Kind: 't', Text: "let t: § = array<i32, 4>(1, 2, 3, 4);"},
 	{Name: "var-ctor-type", Kind: 't', Text: "var t = §();"},
 	{Name: "let-ctor-type", Kind: 't', Text: "let t = §();"},
 	{Name: "const-ctor-type", Kind: 't', Text: "const t = §();"},
@@ -295,7 +296,7 @@ const c11VecVarPrelude = "var w2 = vec2<i32>(4, 2);\nvar w3 = vec3<i32>(4, 2, 3)
 
 func swizzleOffs(v2, v3, v4 string) []C11Off {
 	return cat(
-		offs("swizzle-mixed", "xg", v4+".xg.x", "rgbx", v4+".rgbx.x", "rx", v4+".rx.x", "yb", v3+".yb.x"),
+		offs("swizzle-mixed", "xg", v4+".xg.x", "rgbx", v4+".rgbx.x", "rx", v4+".rx.x", "yb", v3+".yb.x", "xyb", v3+".xyb.x"),
 		offs("swizzle-too-wide", "xyzwx", v4+".xyzwx.x", "rgbar", v4+".rgbar.x"),
 		offs("swizzle-beyond-width", "vec2.z", v2+".z", "vec3.w", v3+".w", "vec2.xz", v2+".xz.x", "vec2.b", v2+".b", "vec3.a", v3+".a", "vec3.xw", v3+".xw.x", "vec2.zz", v2+".zz.x"),
 	)
